@@ -221,6 +221,57 @@ fn c07<V: Val>(ctx: &mut Ctx, idx: u64, case: &Case, p: &Pma<V>, blocks: usize, 
                 ctx.rep.count("searches_observed", 1);
                 ctx.rep.count("matches_observed", got.len() as u64);
             }
+            // haystack handed over by value in containers with inline / heap storage: the search
+            // must read the haystack's own bytes wherever they live. Same bytes, same answer as the
+            // borrowed slice — a difference means the search read memory that is not the haystack
+            // (e.g. through a pointer cached before the container was moved); Miri and ASan also
+            // observe these runs directly.
+            {
+                let mut cut = hay.len().min(crate::pma::INLINE_CAP);
+                while cut > 0 && cut < hay.len() && (hay[cut] & 0xC0) == 0x80 {
+                    cut -= 1;
+                }
+                let short = &hay[..cut];
+                for &m in Method::for_kind(spec.kind) {
+                    let base_m = evlog::slice_twin(m);
+                    if base_m != m {
+                        continue;
+                    }
+                    let (exp, _) = a.search(m, short, 16 * short.len() + 16, loose_budget(short.len(), ns));
+                    let mut conts = vec![crate::pma::Container::Inline, crate::pma::Container::Heap];
+                    if short.len() >= 16 && (!case.utf8 || (short[16.min(short.len() - 1)] & 0xC0) != 0x80 || short.len() == 16) {
+                        conts.push(crate::pma::Container::Array16);
+                    }
+                    for c in conts {
+                        let (h, e): (&[u8], Vec<_>) = if c == crate::pma::Container::Array16 && a.variant() == Variant::Bytewise {
+                            let h16 = &short[..16];
+                            (h16, a.search(m, h16, 16 * 16 + 16, loose_budget(16, ns)).0)
+                        } else {
+                            (short, exp.clone())
+                        };
+                        let got = a.search_in_container(m, h, c, 16 * h.len() + 16, loose_budget(h.len(), ns));
+                        ctx.rep.count("by_value_container_searches", 1);
+                        let same = got.len() == e.len() && got.iter().zip(e.iter()).all(|(x, y)| x.0 == y.0 && x.1 == y.1 && x.2.same(&y.2));
+                        if !same {
+                            ctx.rep.violation(
+                                "haystack-container",
+                                format!(
+                                    "[{stage}] {} returns different matches for the same bytes passed by value in a {:?} container than passed as a borrowed slice: the search read memory that is not the haystack",
+                                    m.name(),
+                                    c
+                                ),
+                                idx,
+                                J::obj()
+                                    .set("haystack", bytes_j(h))
+                                    .set("got_(start,end)", J::arr(got.iter().take(12).map(|x| J::arr([J::us(x.0), J::us(x.1)]))))
+                                    .set("expected_(start,end)", J::arr(e.iter().take(12).map(|x| J::arr([J::us(x.0), J::us(x.1)]))))
+                                    .set("case", case.to_json(40, 200)),
+                            );
+                            return;
+                        }
+                    }
+                }
+            }
             // the byte-iterator entry points (hand-written UTF-8 decoder with unwrap_unchecked) under
             // the same sanitizer observers
             if spec.kind == MatchKind::Standard {
